@@ -1268,7 +1268,21 @@ def make_builtins(I):
         if isinstance(x, IterVal):
             x = x.seq
         if key is not None or reverse:
-            raise Unsupported("sorted with key/reverse")
+            # stable sort by key over a sequence of concrete length: insertion sort branching on the key comparisons
+            items = iterate(I, x)
+            if len(items) > 6:
+                raise Unsupported("sorted with key over a long sequence")
+            keyed = [(I.call(key, [it], {}) if key is not None else it, it) for it in items]
+            out = []
+            for kv, it in keyed:
+                pos = len(out)
+                for j, (ko, _) in enumerate(out):
+                    lt = compare(I, ast.Lt(), kv, ko) if not reverse else compare(I, ast.Gt(), kv, ko)
+                    if I.decide(lt):
+                        pos = j
+                        break
+                out.insert(pos, (kv, it))
+            return [it for _, it in out]
         if isinstance(x, SymSet):
             # contract of sorted() on a set of ints: the strictly increasing enumeration of its elements
             n = card(I, x)
